@@ -8,7 +8,8 @@ Correspondence: Model.Adapter.tag_positions on the recorded callbacks (the adapt
 drops it), Model.Pos.true_pos (the property's notion) against the Python statement, and Model.Pos.updatepos against
 the standard library's own position tracking on the recorded token slices.
 """
-import itertools
+from bs4 import BeautifulSoup
+import itertools, warnings
 import common
 from props import c04
 
@@ -94,7 +95,7 @@ def check_batch(ctx, items):
             cmds_pos.append([18002, c04.enc_acfg(cc), [c04.enc_hev(h) for h in log.hevs]])
             rows.append((case, got, log))
             if store:
-                offs = sorted({0, len(markup)} | {o for o in (offset_of(markup, p) for _, p in got) if o is not None}
+                offs = sorted({0, len(markup)} | {o for o in (offset_of(markup, p) for _, p in got if p is not None) if o is not None}
                               | {i for i, ch in enumerate(markup) if ch == "\n"} | {i + 1 for i, ch in enumerate(markup) if ch == "\n"})
                 offs = [o for o in offs if o <= len(markup)][:60]
                 cmds_lc.append(([18000, markup, offs], case, offs, markup))
@@ -162,6 +163,43 @@ def run(ctx):
     for i in range(10000 if ctx.thorough else 800):
         add(c04.CONFIGS[i % len(c04.CONFIGS)], c04.gen_soup(rng) + ("\n" if i % 2 else "") + c04.gen_soup(rng), "soup")
     check_batch(ctx, items)
+    reused_builder(ctx, rng)
+
+
+def reused_builder(ctx, rng):
+    """One builder object used for several documents in a row (BeautifulSoup(doc, builder=b)): positions in every
+    document must still be those of that document's own text (nothing carries over from the previous parse)."""
+    from bs4.builder._htmlparser import HTMLParserTreeBuilder
+    default = c04.CONFIG["default"]
+    b = HTMLParserTreeBuilder()
+    for i in range(300 if ctx.thorough else 60):
+        markup, dn, tags = c04.write_doc(rng, default, c04.gen_doc(rng, default))
+        if i % 2:
+            markup = "\n" * rng.randint(0, 3) + markup
+            tags = None
+        with warnings.catch_warnings():
+            warnings.simplefilter("ignore")
+            try:
+                soup = BeautifulSoup(markup, builder=b)
+            except Exception as e:
+                ctx.fail({"markup": markup, "kind": "reused-builder", "config": "default", "store_line_numbers": None},
+                         "parsing with a reused builder raised %s" % type(e).__name__, None, None, tag="reused-builder")
+                continue
+        got = tags_of(c04.impl_shape(soup))
+        fresh = c04.parse_plain(markup, {})
+        exp = tags_of(c04.impl_shape(fresh)) if not isinstance(fresh, str) else None
+        case = {"markup": markup, "kind": "reused-builder document #%d" % i, "config": "default", "store_line_numbers": None}
+        ctx.case(("reused", i, markup), nontrivial=len(got) >= 2)
+        last = -1
+        for n, p in got:
+            off = None if p is None else offset_of(markup, p)
+            if not (off is not None and markup[off:off + 1] == "<" and markup[off + 1:off + 1 + len(n)].lower() == n and off > last):
+                ctx.fail(case, "with a builder object reused for a second document, a tag's position is not where its start tag's '<' appears",
+                         (n, p), None, tag="reused-builder")
+                break
+            last = off
+        if exp is not None and got != exp:
+            ctx.fail(case, "positions differ between a reused builder and a fresh one", c04.first_diff(got, exp), None, tag="reused-builder")
 
 
 def replay(ctx, data):
